@@ -87,6 +87,15 @@ Theorem c20_attachment : forall g sh idx i mc,
 Proof. exact mirrors_of_spec. Qed.
 Print Assumptions c20_attachment.
 
+(** A configuration pgcat accepts (Shard::validate: every mirroring_target_index names a server of the
+    shard) attaches EVERY mirror, to exactly the server it names: no mirror is silently unused. *)
+Theorem c20_valid_cfg_attaches_all : forall g sh s i mc,
+  valid_cfg g = true -> nth_error g sh = Some s -> nth_error (mirrors s) i = Some mc ->
+  In (i, mc) (mirrors_of g sh (m_target mc)) /\
+  forall idx, In (i, mc) (mirrors_of g sh idx) -> idx = m_target mc.
+Proof. exact valid_cfg_attaches_all. Qed.
+Print Assumptions c20_valid_cfg_attaches_all.
+
 (** An offered buffer is enqueued whole (at the tail) or dropped whole; a delivery hands over
     exactly the oldest queued buffer; every other step only removes whole buffers. *)
 Theorem c20_no_partial : forall cs b n c,
@@ -168,6 +177,12 @@ Example ex_mirrors_of :
   map fst (mirrors_of g_ex 0 0) = [1] /\ map fst (mirrors_of g_ex 0 1) = [0; 3]
   /\ mirrors_of g_ex 0 5 = [] /\ mirrors_of g_ex 0 2 = []
   /\ map fst (mirrors_of g_ex 1 0) = [0] /\ mirrors_of g_ex 2 0 = [].
+Proof. vm_compute. repeat split; reflexivity. Qed.
+
+Example ex_valid_cfg :
+  valid_cfg g_ex = false
+  /\ valid_cfg [mkShard [100%N; 101%N] [mkMirror 200 1; mkMirror 201 0]; mkShard [110%N] [mkMirror 210 0]] = true
+  /\ valid_cfg [mkShard [100%N] [mkMirror 200 1]] = false.
 Proof. vm_compute. repeat split; reflexivity. Qed.
 
 (** a run of the pooler: traffic of server 0 reaches only the mirror that targets 0, traffic of
